@@ -121,7 +121,11 @@ CLAIMS = {
          "not proved of lower.rs. Generated programs bind names spelled like constructors of an enum of the same file / another file / an "
          "imported package, like functions and type names, in all four binder kinds, and repeat names inside one parameter list / pattern; "
          "the well-typed-by-construction stream must be accepted. Which bare names in PATTERN position are constructor patterns "
-         "(lower.rs: variants / structs declared in the same file) is taken from the real AST, not decided by the property.",
+         "(variants / structs declared in the same file, whatever is in scope) is the language's documented rule, not decided by the property; "
+         "since round 11 the check applies that rule itself (harness/src/patrule.rs, on the parser's node and the file's declarations) instead of "
+         "taking lower.rs's word: the binders of the scope tree follow the rule, a pattern lowered against it is reported, and the catalogue "
+         "harness/src/patpos.rs (constructor patterns under same-spelled parameters, closure parameters and shorthand fields, uses of the local in "
+         "the arm bodies) must resolve to the innermost binder by the rule and be accepted.",
     design_ref="§5 C05, §CST→AST lowering — as built (round 11)",
     note="Round 11: the constructor-vs-local classification of ast/src/lower.rs (is_constructor_path and its binder stack) is now inside a "
          "Lean model (Model/Lower.lean) whose stack discipline is proved (Props/Lower.lean: lower_binder_stack_balanced, patVars_scope) and which "
@@ -129,13 +133,6 @@ CLAIMS = {
          "AST the lowering MODEL produces, for all trees; conOk* is still evaluated per case on the REAL AST as a cross-check, and the model-free "
          "lower-classification oracle does the same on every real lowered AST of the tie. "
          "Trusted: Lean kernel (axioms printed in evidence), harness AST→scope-tree dump and HIR walk, the generator's coverage of scope shapes. "
-         "(variants / structs declared in the same file, whatever is in scope) is the language's documented rule, not decided by the property; "
-         "since round 11 the check applies that rule itself (harness/src/patrule.rs, on the parser's node and the file's declarations) instead of "
-         "taking lower.rs's word: the binders of the scope tree follow the rule, a pattern lowered against it is reported, and the catalogue "
-         "harness/src/patpos.rs (constructor patterns under same-spelled parameters, closure parameters and shorthand fields, uses of the local in "
-         "the arm bodies) must resolve to the innermost binder by the rule and be accepted.",
-    design_ref="§5 C05",
-    note="Trusted: Lean kernel (axioms printed in evidence), harness AST→scope-tree dump and HIR walk, the generator's coverage of scope shapes. "
          "The typer's own scoping (LocalTypeEnv) is exercised only through the acceptance oracle.",
     technique="Lean 4 proof (structural induction over the nested AST) + differential correspondence with the Rust resolver"),
  "C07": dict(
